@@ -38,7 +38,7 @@ def enc_chain(c):
     na = lst(c["na"], lambda x: "(%s, %s)" % (k2(x[0], x[1]), N(x[2])))
     cps = lst(c["cps"], lambda x: "(%s, %s)" % (N(x[0]), N(x[1])))
     als = lst(c["als"], lambda x: "(%s, %s)" % (N(x[0]), N(x[1])))
-    chain = "(init_chain %s %s %s %s %s %s %s %s %s %s)" % (chs, cns, pts, ns, nr, na, cps, als, H(c["h"]), N(c["t"]))
+    chain = "(init_chain %s %s %s %s %s %s %s %s %s %s)" % (chs, cns, pts, ns, nr, na, cps, als, H([c["h"][0], str(int(c["h"][1]) - 1)]), N(c["t"]))  # "h" is the height of the NEXT block: the state is at h-1
     cls = lst(c["clients"], lambda x: "(%s, mkClient %s %s %s %s)" % (
         N(x[0]), b(x[1]), H(x[2]), N(x[3]),
         lst(x[4], lambda y: "(%s, (%s, %s))" % (H(y[0]), N(y[1]), N(y[2])))))
